@@ -35,8 +35,7 @@ def guarded_arith(ctx, rid="R1", floor=10):
     ss = arith.sites(ctx.an)
     o = ctx.ob("%s.sites" % rid, "T5", "solution+solver",
                "arithmetic sites on rotation-cycle lengths are found (floor %d)" % floor)
-    ctx.decide(o, len(ss) >= floor, "%d sites" % len(ss),
-               "only %d sites found, %d were confirmed by hand: the recogniser lost sight of them" % (len(ss), floor))
+    ctx.floor(o, len(ss), floor, "arithmetic sites")
     count = {}
     for key, ins, kind, c, g in ss:
         ctx.functions.add(key)
